@@ -108,6 +108,9 @@ def make_scenario(ctx, rnd, sid, model, ngroup, gauss, clip=False, R=1, opts=Non
         if R > 1:  # per-sample weights: event weight x positive smearing weights (event sums stay away from 0)
             ev = w if w is not None else [1.0] * (nd // R)
             w = [round(e * rnd.uniform(0.3, 1.0), 3) for e in ev for _ in range(R)]
+        if opts.get("lowdens"):  # one data event of weight 0 (it must contribute nothing, not 0/0)
+            w = list(w) if w is not None else [1.0] * nd
+            w[1] = 0.0
         if w is not None:
             f = os.path.join(d, "dw%d.dat" % gi); np.savetxt(f, np.array(w)); dw.append(f)
         v = gen_weights(rnd, nm, s.vkind)
@@ -121,7 +124,10 @@ def make_scenario(ctx, rnd, sid, model, ngroup, gauss, clip=False, R=1, opts=Non
         if cfit:
             for key, n in (("data_bg_value", nd), ("phsp_bg_value", nm), ("data_eff_value", nd), ("phsp_eff_value", nm)):
                 f = os.path.join(d, "%s%d.dat" % (key, gi))
-                np.savetxt(f, np.array([round(rnd.uniform(0.4, 1.6), 3) for _ in range(n)])); extra[key].append(f)
+                col = [round(rnd.uniform(0.4, 1.6), 3) for _ in range(n)]
+                if opts.get("lowdens") and key.startswith("data_"):  # one data event with mixture density ~1e-9 << 1e-6
+                    col[0] = 1e-9
+                np.savetxt(f, np.array(col)); extra[key].append(f)
     if R > 1:
         data["resolution_size"] = R
     if dw:
@@ -375,16 +381,23 @@ def _part_goals(s, gi, pi, p, batch, fb, tag):
         fin = "unfold W, e, f, b; cbv [sig_of cfit_prob %s]; %s" % (LISTF, IP)
         finclip = ("rewrite map_clip_log_shortfall by (unfold e, f, b; cbv [shortfall rmax eps_clip sig_of cfit_prob %s]; %s); " % (LISTF, IP)) + fin
         intro = "intros W e f b V eg g bm; "
+        if s.opts.get("lowdens"):
+            # a mixture density below the clip threshold: clip_log is evaluated in its branch-free form on the exact
+            # rational expressions (an enclosure of I_sig, I_bg would be amplified by 1/eps inside clip_log_abs)
+            scale = float(np.sum(np.abs(np.array(W) * np_clip_log(pr)))) + abs(sw * math.log(lam)) + abs(lam)
+            isf = ibf = ""
+            finclip = "rewrite map_clip_log_abs; unfold W, e, f, b, V, eg, g, bm; cbv [sig_of cfit_prob %s %s]; %s" % (LISTF, CLIP, IP)
         if m in ("cfit", "cfit_cached"):
-            stmt = L + le("cfit_call %s W e f b V eg g bm" % Rq(fb), p.call, tol_of(p.call, scale))
-            tac = intro + "cbv [cfit_call cfit_probs scale_w]; " + a2frag + isf + ibf + fin
+            # Model_cfit.nll uses clip_log like its gradient path since /repo 9a16823
+            stmt = L + le("cfit_nll %s W e f b V eg g bm" % Rq(fb), p.call, tol_of(p.call, scale))
+            tac = intro + "cbv [cfit_nll cfit_probs scale_w]; " + a2frag + isf + ibf + finclip
             out.append((base + "_C", stmt, tac, {"layer": "call", "site": "Model_cfit.nll"}))
             stmt = L + le("cfit_gradval %s W e f b V eg g bm" % Rq(fb), p.gradval, tol_of(p.gradval, scale))
             tac = intro + "cbv [cfit_gradval cfit_probs]; " + isf + ibf + finclip
             out.append((base + "_G", stmt, tac, {"layer": "gradval", "site": "Model_cfit.nll_grad_batch (value)"}))
         elif m == "cfit_extended":
-            stmt = L + le("cfit_ext_call %s W e f b V eg g bm" % Rq(fb), p.call, tol_of(p.call, scale))
-            tac = intro + "cbv [cfit_ext_call cfit_lambda cfit_probs scale_w]; " + a2frag + isf + ibf + fin
+            stmt = L + le("cfit_ext_nll %s W e f b V eg g bm" % Rq(fb), p.call, tol_of(p.call, scale))
+            tac = intro + "cbv [cfit_ext_nll cfit_lambda cfit_probs scale_w]; " + a2frag + isf + ibf + finclip
             out.append((base + "_C", stmt, tac, {"layer": "call", "site": "ModelCfitExtended.nll"}))
             stmt = L + le("cfit_ext_gradval %s W e f b V eg g bm" % Rq(fb), p.gradval, tol_of(p.gradval, scale))
             tac = intro + "cbv [cfit_ext_gradval cfit_lambda cfit_probs]; " + isf + ibf + finclip
@@ -573,7 +586,7 @@ def record_of(s, gi, batch, x, p, fb, pi, kind):
     return {**extra, "scenario": s.sid, "model": s.model, "group": gi, "batch": batch, "params": x,
             "weights": p.ws, "bg_weights": p.bgw, "mc_weights": p.v, "density_data": p.f, "density_mc": p.g,
             "nll_call": p.call, "nll_gradval": p.gradval, "documented": float(doc_value(s.model, p, fb)), "bg_frac": fb,
-            "clip": s.clip, "point": pi, "phase": kind}
+            "clip": s.clip or bool(s.opts.get("lowdens")), "point": pi, "phase": kind}
 
 
 def run_scenario(ctx, rnd, s, npoints, all_batches):
@@ -658,8 +671,19 @@ def run_scenario(ctx, rnd, s, npoints, all_batches):
                 p = capture_part(s.model, fi, amp, raws[gi], x)
                 p.R = s.R
                 parts.append(p)
+                p.call_bad = not math.isfinite(p.call)
+                if p.call_bad:  # e.g. 0/0 for an event of weight 0
+                    ctx.fails.append(dict(layer="call", case="b%d_s%d_g%d_p%d_C" % (batch, s.sid, gi, pi),
+                                          detail="FCN.get_nll returned %r [model=%s, batch=%d, N=%d, zero-weight events: %d]"
+                                                 % (p.call, s.model, batch, len(p.W), sum(1 for t in p.W if t == 0)),
+                                          site="get_nll(%s)" % s.model, fingerprint=s.model + ":call_not_finite",
+                                          failing_input={"config": s.cfg, "batch": batch, "params": x, "fcn_weight": p.W,
+                                                         "nll_call": repr(p.call), "nll_gradval": p.gradval}))
+                    p.call = 0.0
                 if bi == 0:
                     gl = part_goals(s, gi, pi, p, batch, fb, "b%d" % batch)
+                    if p.call_bad:
+                        gl = [c for c in gl if not c[0].endswith("_C")]
                     if kind == "fixed" or (kind == "point" and pi > 0):  # same FCN weights as at the first point
                         gl = [c for c in gl if not (c[0].endswith("_W") or c[0].endswith("_V"))]
                     ref_grad[gi] = p.gradval
@@ -693,7 +717,7 @@ def run_scenario(ctx, rnd, s, npoints, all_batches):
             if bi > 0:
                 continue
             cs = [(float(cfg.vm.get(k)), float(mu), float(sg)) for k, (mu, sg) in s.gc.items()]
-            if any(p.gradval is None for p in parts):
+            if any(p.gradval is None or p.call_bad for p in parts):
                 continue
             tot_call = float(fcn(x)); tot_grad = float(fcn.nll_grad(x)[0])
             ctx.evaluations += 2
@@ -907,6 +931,10 @@ def plan(ctx, rnd):
                           ("default", 1, {"regroup": True}), ("extended", 2, {"regroup": True}), ("cached_amp", 1, {"regroup": True}),
                           ("cached_int", 2, {"regroup": True}), ("simple", 1, {"regroup": True}))):
             sc.append((sid, m, ng, sid % 2 == 0, False, 1, o)); sid += 1
+        # clip region of the cfit mixture (one event of density ~1e-9) and an event of weight 0: stand-alone value = value
+        # alongside the gradient there too (C06_cfit_call_equals_gradval)
+        for m in ("cfit", "cfit_extended"):
+            sc.append((sid, m, 1, sid % 2 == 0, False, 1, {"lowdens": True})); sid += 1
         sc.append((sid, "multiconfig", 2, True, False)); sid += 1
         for m in (("cached_amp",) if quick else ("cached_amp", "cfit_cached", "cached_int")):
             sc.append((sid, "idreuse:" + m, 1, False, False)); sid += 1
